@@ -20,7 +20,7 @@ Rec == ndJsonDeserialize(IOEnv.TRACE)
 Cfg == Rec[1].args
 ToSet(s) == {s[i] : i \in 1..Len(s)}
 
-P == INSTANCE Props WITH Ent <- ToSet(Cfg.ents), Client <- ToSet(Cfg.clients), Policy <- Cfg.policy,
+P == INSTANCE PropsE WITH Ent <- ToSet(Cfg.ents), Client <- ToSet(Cfg.clients), Policy <- Cfg.policy,
                          Track <- Cfg.track, Timeout <- Cfg.timeout_ms, Impl <- ImplCurrentTree
 
 Ents == ToSet(Cfg.ents)
@@ -66,7 +66,9 @@ StateOf(post, pred) ==
               removalBuf |-> [e \in DOMAIN post.srv.removalBuf |-> ToSet(post.srv.removalBuf[e]) \cap P!Comp],
               cl |-> [c \in Clients |-> NormSrvCl(post.srv.cl[c])]],
      net |-> [c \in Clients |-> NormNet(post.net[c])],
-     cli |-> [c \in Clients |-> NormCli(post.cli[c], pred.cli[c].lastNotDisc)]]
+     cli |-> [c \in Clients |-> NormCli(post.cli[c], pred.cli[c].lastNotDisc)],
+     \* events: the channels are observed, the buffers inside the apps are carried over
+     ev |-> [pred.ev EXCEPT !.net = [c \in Clients |-> post.ev.net[c]]]]
 
 ----------------------------------------------------------------------------
 (* per-field comparison *)
@@ -74,6 +76,7 @@ StateOf(post, pred) ==
 ClFields == {"conn", "auth", "updTick", "mutTick", "inflight", "nextIdx", "vis", "pendingMap"}
 NetFields == {"upd", "mut", "ack", "rxUpd", "rxMut", "srxAck"}
 CliFields == {"status", "updTick", "ents", "buf", "panicked"}
+EvNetFields == {"sev", "rxSev", "cev", "srxCev"}
 SrvFields == {"tick", "frame", "running", "now", "world", "despawnBuf", "removalBuf"}
 
 Diffs(p, o) ==
@@ -81,10 +84,12 @@ Diffs(p, o) ==
     \cup UNION {{<<"srv.cl", f, c>> : f \in {x \in ClFields : p.srv.cl[c][x] # o.srv.cl[c][x]}} : c \in Clients}
     \cup UNION {{<<"net", f, c>> : f \in {x \in NetFields : p.net[c][x] # o.net[c][x]}} : c \in Clients}
     \cup UNION {{<<"cli", f, c>> : f \in {x \in CliFields : p.cli[c][x] # o.cli[c][x]}} : c \in Clients}
+    \cup UNION {{<<"ev.net", f, c>> : f \in {x \in EvNetFields : p.ev.net[c][x] # o.ev.net[c][x]}} : c \in Clients}
 
 FieldVal(s, d) == CASE d[1] = "srv" -> s.srv[d[2]]
                     [] d[1] = "srv.cl" -> s.srv.cl[d[3]][d[2]]
                     [] d[1] = "net" -> s.net[d[3]][d[2]]
+                    [] d[1] = "ev.net" -> s.ev.net[d[3]][d[2]]
                     [] OTHER -> s.cli[d[3]][d[2]]
 
 ----------------------------------------------------------------------------
@@ -97,7 +102,8 @@ MutParts(sent, c) ==
 \* [st, ok, ran]: predicted state, whether the step was enabled / the split acceptable, whether replication ran
 Predict(cur, r) ==
     LET a == r.args
-        Plain(s, en) == [st |-> s, ok |-> en, ran |-> FALSE]
+        Plain(s, en) == [st |-> s, ok |-> en, ran |-> FALSE, delivered |-> <<>>]
+        authNone == Cfg.auth = "none"
     IN CASE r.ev = "Spawn"    -> Plain(P!SpawnF(cur, a.e, ToSet(a.comps), a.repl), P!SpawnEnabled(cur, a.e))
          [] r.ev = "Despawn"  -> Plain(P!DespawnF(cur, a.e), P!DespawnEnabled(cur, a.e))
          [] r.ev = "Mark"     -> Plain(P!MarkF(cur, a.e), P!MarkEnabled(cur, a.e))
@@ -110,23 +116,32 @@ Predict(cur, r) ==
                 LET pre == P!SrvFramePre(cur, a.tick, a.dt)
                     parts == IF P!WillReplicate(pre) THEN [c \in Clients |-> MutParts(r.obs.sent, c)] ELSE <<>>
                     res == P!SrvFramePost(pre, parts, 0)
-                IN [st |-> res.st, ok |-> res.partsOK, ran |-> res.ran]
-         [] r.ev = "CliFrame"   -> Plain(P!CliFrameF(cur, a.c), TRUE)
+                    evr == P!SrvFrameEv(res.st, cur, res.ran)
+                IN [st |-> evr.st, ok |-> res.partsOK, ran |-> res.ran, delivered |-> evr.delivered]
+         [] r.ev = "CliFrame"   ->
+                LET evr == P!CliFrameEv(P!CliFrameF(cur, a.c), a.c)
+                IN [st |-> evr.st, ok |-> TRUE, ran |-> FALSE, delivered |-> evr.delivered]
+         [] r.ev = "EmitS"      -> Plain(P!EmitSF(cur, [t |-> a.t, id |-> a.id, mode |-> a.mode, to |-> a.to, sess |-> 0, e |-> a.e]), TRUE)
+         [] r.ev = "EmitC"      -> Plain(P!EmitCF(cur, a.c, [t |-> a.t, id |-> a.id, e |-> a.e]), TRUE)
+         [] r.ev = "DeliverEvS" -> Plain(P!DeliverEvSF(cur, a.c, a.t, a.pos + 1), P!DeliverEvSEnabled(cur, a.c, a.t, a.pos + 1))
+         [] r.ev = "DeliverEvC" -> Plain(P!DeliverEvCF(cur, a.c, a.t, a.pos + 1), P!DeliverEvCEnabled(cur, a.c, a.t, a.pos + 1))
+         [] r.ev = "Authorize"  -> Plain(P!AuthorizeF(cur, a.c), cur.srv.cl[a.c].conn)
          [] r.ev = "DeliverUpd" -> Plain(P!DeliverUpdF(cur, a.c), P!DeliverUpdEnabled(cur, a.c))
          [] r.ev = "DeliverMut" -> Plain(P!DeliverMutF(cur, a.c, a.pos + 1), P!MutEnabled(cur, a.c, a.pos + 1))
          [] r.ev = "DropMut"    -> Plain(P!DropMutF(cur, a.c, a.pos + 1), P!MutEnabled(cur, a.c, a.pos + 1))
          [] r.ev = "DeliverAck" -> Plain(P!DeliverAckF(cur, a.c), P!DeliverAckEnabled(cur, a.c))
-         [] r.ev = "Connect"    -> Plain(P!ConnectF(cur, a.c), P!ConnectEnabled(cur, a.c))
-         [] r.ev = "Disconnect" -> Plain(P!DisconnectF(cur, a.c), P!DisconnectEnabled(cur, a.c))
+         [] r.ev = "Connect"    -> Plain(P!ConnectEvF(IF authNone THEN P!ConnectF(cur, a.c) ELSE P!ConnectUnauthF(cur, a.c), a.c),
+                                         P!ConnectEnabled(cur, a.c))
+         [] r.ev = "Disconnect" -> Plain(P!DisconnectEvF(P!DisconnectF(cur, a.c), a.c), P!DisconnectEnabled(cur, a.c))
          [] r.ev = "NotEnabled" -> Plain(cur, FALSE)     \* replay: the real apps refused an action the spec allowed
          [] OTHER               -> Plain(cur, TRUE)      \* Quiesce, AtRest: no state change
 
 ----------------------------------------------------------------------------
-VARIABLES l, cur, g, nd, nv
+VARIABLES l, cur, g, ge, nd, nv
 
-vars == <<l, cur, g, nd, nv>>
+vars == <<l, cur, g, ge, nd, nv>>
 
-Init == l = 1 /\ cur = P!InitState /\ g = P!GhostInit /\ nd = 0 /\ nv = 0
+Init == l = 1 /\ cur = P!InitStateE /\ g = P!GhostInit /\ ge = P!EvGhostInit /\ nd = 0 /\ nv = 0
 
 GhostStep(gg, r, obs, ran) ==
     LET sentNow == Len(SelectSeq(r.obs.sent, LAMBDA x : x.ch = "upd" \/ x.ch = "mut"))
@@ -136,9 +151,46 @@ GhostStep(gg, r, obs, ran) ==
         g4 == IF r.ev = "Connect" THEN [g3 EXCEPT !.lastSet[r.args.c] = <<>>] ELSE g3
     IN g4
 
-\* monitors evaluated on the observed state
-Violations(r, old, obs, gg) ==
-    {p \in {"C01", "C02", "C02mono", "C03", "C03mono", "C08data", "C08query", "C11rest", "panic"} :
+----------------------------------------------------------------------------
+(* observations of one step, in the vocabulary of PropsE *)
+
+IsEvCh(ch) == ch \notin {"upd", "mut", "ack"}
+\* event messages the server put on the wire in this frame: [c, t, id, stamp, e]
+SentEv(r) == {[c |-> x.c, t |-> x.m.t, id |-> x.m.id, stamp |-> x.m.stamp, e |-> x.m.e]
+              : x \in {y \in ToSet(r.obs.sent) : y.c \in Clients /\ IsEvCh(y.ch)}}
+\* everything the server put on the wire: [c, ch, t]
+SentAll(r) == {[c |-> x.c, ch |-> IF IsEvCh(x.ch) THEN "ev" ELSE x.ch, t |-> IF IsEvCh(x.ch) THEN x.m.t ELSE "-"]
+               : x \in {y \in ToSet(r.obs.sent) : y.c \in Clients}}
+CliDeliveries(r) == MapSeq(r.obs.delivered, LAMBDA d : [t |-> d.t, id |-> d.id, upd |-> d.upd, e |-> d.e])
+SrvDeliveries(r) == MapSeq(SelectSeq(r.obs.delivered, LAMBDA d : d.t \in P!CEvSet),
+                           LAMBDA d : [t |-> d.t, id |-> d.id, from |-> d.from, e |-> d.e])
+
+\* per-type view of a delivery sequence (the order across types is not observable)
+PerType(dl, types) == [t \in types |-> SelectSeq(dl, LAMBDA d : d.t = t)]
+PredCli(dl) == MapSeq(dl, LAMBDA d : [t |-> d.t, id |-> d.id, upd |-> d.upd, e |-> d.e])
+PredSrv(dl) == MapSeq(dl, LAMBDA d : [t |-> d.t, id |-> d.id, from |-> d.from, e |-> d.e])
+PerTypeFrom(dl) == [t \in P!CEvSet |-> [c \in Clients |-> SelectSeq(dl, LAMBDA d : d.t = t /\ d.from = c)]]
+
+DeliveryDiff(r, pr) ==
+    IF r.ev = "CliFrame"
+    THEN IF PerType(CliDeliveries(r), P!SEvSet) # PerType(PredCli(pr.delivered), P!SEvSet)
+         THEN {<<"delivered", "client", r.args.c>>} ELSE {}
+    ELSE IF r.ev = "SrvFrame"
+    THEN IF PerTypeFrom(SrvDeliveries(r)) # PerTypeFrom(PredSrv(pr.delivered))
+         THEN {<<"delivered", "server", "-">>} ELSE {}
+    ELSE {}
+
+EvGhostStep(gg, r, pre, obs) ==
+    IF r.ev = "SrvFrame" THEN P!EvGhostSrvFrame(gg, pre, obs, SentEv(r), SrvDeliveries(r))
+    ELSE IF r.ev = "CliFrame" THEN P!EvGhostCliFrame(gg, pre, obs, r.args.c, CliDeliveries(r))
+    ELSE IF r.ev = "Connect" THEN P!EvGhostConnect(gg, r.args.c)
+    ELSE gg
+
+\* monitors evaluated on the observed state; `gePre` is the event ghost before this step
+Violations(r, old, obs, gg, gePre, geNew) ==
+    {p \in {"C01", "C02", "C02mono", "C03", "C03mono", "C08data", "C08query", "C11rest", "panic",
+            "C04stamp", "C04delivery", "C05recipients", "C05delivery", "C05complete", "C05server", "C05serverComplete",
+            "C07unauth"} :
         CASE p = "C01"      -> r.ev = "Quiesce" /\ ~P!C01_AtQuiescence(obs)
           [] p = "C02"      -> ~P!C02(obs, gg)
           [] p = "C02mono"  -> r.ev # "Init" /\ ~P!C02_MonoStep(old, obs)
@@ -147,6 +199,14 @@ Violations(r, old, obs, gg) ==
           [] p = "C08data"  -> ~P!C08_Data(obs, gg)
           [] p = "C08query" -> ~P!C08_Query(obs, gg)
           [] p = "C11rest"  -> r.ev = "AtRest" /\ ~P!C11_SilentAtRest(gg)
+          [] p = "C04stamp" -> r.ev = "SrvFrame" /\ ~P!C04_Stamp(obs, SentEv(r))
+          [] p = "C04delivery" -> r.ev = "CliFrame" /\ ~P!C04_Delivery(obs, gePre, r.args.c, CliDeliveries(r))
+          [] p = "C05recipients" -> r.ev = "SrvFrame" /\ ~P!C05_Recipients(old, geNew, SentEv(r))
+          [] p = "C05delivery" -> r.ev = "CliFrame" /\ ~P!C05_Delivery(obs, gePre, r.args.c, CliDeliveries(r))
+          [] p = "C05complete" -> r.ev = "Quiesce" /\ ~P!C05_Complete(obs, geNew)
+          [] p = "C05server" -> r.ev = "SrvFrame" /\ ~P!C05_ServerDelivery(obs, gePre, SrvDeliveries(r))
+          [] p = "C05serverComplete" -> r.ev = "Quiesce" /\ ~P!C05_ServerComplete(obs, geNew)
+          [] p = "C07unauth" -> r.ev = "SrvFrame" /\ ~P!C07_Unauthorized(obs, SentAll(r))
           [] OTHER          -> r.obs.panic # "none"}
 
 MaxPrint == 40
@@ -155,22 +215,28 @@ Step ==
     /\ l <= Len(Rec)
     /\ LET r == Rec[l]
            isInit == r.ev = "Init"
-           base == IF isInit THEN P!InitState ELSE cur
+           base == IF isInit THEN P!InitStateE ELSE cur
+           geBase == IF isInit THEN P!EvGhostInit ELSE ge
        IN \E pr \in {Predict(base, r)} :
           \E obs \in {StateOf(r.post, pr.st)} :
           \E g1 \in {GhostStep(IF isInit THEN P!GhostInit ELSE g, r, obs, pr.ran)} :
-            LET ds == Diffs(pr.st, obs) \cup (IF pr.ok THEN {} ELSE {<<"enabled", r.ev, "-">>})
-                vs == Violations(r, base, obs, g1)
+          \E ge1 \in {EvGhostStep(geBase, r, base, obs)} :
+            LET ds == Diffs(pr.st, obs) \cup (IF pr.ok THEN {} ELSE {<<"enabled", r.ev, "-">>}) \cup DeliveryDiff(r, pr)
+                vs == Violations(r, base, obs, g1, geBase, ge1)
+                printable(d) == d[1] \notin {"enabled", "delivered"}
             IN /\ \A d \in ds :
                     (nd < MaxPrint) =>
                         PrintT(<<"DIFF", ToJson([run |-> r.run, i |-> r.i, ev |-> r.ev, kind |-> d[1], field |-> d[2], c |-> d[3],
-                                                 pred |-> IF d[1] = "enabled" THEN "" ELSE ToJson(FieldVal(pr.st, d)),
-                                                 obs |-> IF d[1] = "enabled" THEN "" ELSE ToJson(FieldVal(obs, d))])>>)
+                                                 pred |-> IF printable(d) THEN ToJson(FieldVal(pr.st, d))
+                                                          ELSE IF d[1] = "delivered" THEN ToJson(pr.delivered) ELSE "",
+                                                 obs |-> IF printable(d) THEN ToJson(FieldVal(obs, d))
+                                                         ELSE IF d[1] = "delivered" THEN ToJson(r.obs.delivered) ELSE ""])>>)
                /\ \A v \in vs : (nv < 10 * MaxPrint) => PrintT(<<"VIOL", ToJson([run |-> r.run, i |-> r.i, ev |-> r.ev, prop |-> v])>>)
                /\ nd' = nd + Cardinality(ds)
                /\ nv' = nv + Cardinality(vs)
                /\ cur' = obs
                /\ g' = g1
+               /\ ge' = ge1
     /\ l' = l + 1
 
 Spec == Init /\ [][Step]_vars
